@@ -505,14 +505,64 @@ func (s *server) zannounced(proxyID, name string) string {
 // zcheck evaluates one long-lived ztunnel against a reference state and reports violations.
 // how: "same-server" (C03 oracle) or "fresh-control-plane" (C01 oracle); fallback, when how is the latter, is the
 // same-server state used to tell an accumulated-delta defect from a history-dependent index.
+// zdiffsOf: the differences of a client against a reference, by the oracle of its subscription mode.
+func zdiffsOf(cl *ztunnelclient.Client, ref zstate) []zdiff {
+	if cl.OnDemand {
+		return zcompareOnDemand(cl, ref)
+	}
+	return zcompare(cl.Snapshot(), ref)
+}
+
+// zpair is one comparison an oracle is about to make.
+type zpair struct {
+	tag string
+	cl  *ztunnelclient.Client
+	ref *zstate // the reference is re-taken by the persistence re-check, so it is read through the pointer
+}
+
+// zpersist is the persistence re-check of the ztunnel oracles (see regrace): if any of the comparisons finds a difference,
+// quiesce / grace window / quiesce with no input, re-take the references and report what went away. The oracles then
+// run on the re-taken references.
+func (w *world) zpersist(oracle string, s *server, retake func() bool, pairs func() []zpair) bool {
+	set := func() map[string]bool {
+		out := map[string]bool{}
+		for _, p := range pairs() {
+			if *p.ref == nil {
+				continue
+			}
+			for _, d := range zdiffsOf(p.cl, *p.ref) {
+				out[p.tag+" "+p.cl.Name+" "+d.String()] = true
+			}
+		}
+		return out
+	}
+	first := set()
+	if len(first) == 0 {
+		return true
+	}
+	if !regrace(s) {
+		w.c.Inconclusive("persistence re-check did not quiesce")
+		return false
+	}
+	if !retake() {
+		return false
+	}
+	second := set()
+	gone := 0
+	for k := range first {
+		if !second[k] {
+			gone++
+		}
+	}
+	if gone > 0 {
+		w.premature(oracle, gone)
+	}
+	return true
+}
+
 func (w *world) zcheck(prefix, how string, cl *ztunnelclient.Client, ref, sameServer zstate, info string) (compared int) {
 	c := w.c
-	var diffs []zdiff
-	if cl.OnDemand {
-		diffs = zcompareOnDemand(cl, ref)
-	} else {
-		diffs = zcompare(cl.Snapshot(), ref)
-	}
+	diffs := zdiffsOf(cl, ref)
 	held := cl.Snapshot()
 	for _, m := range held {
 		compared += len(m)
@@ -539,18 +589,20 @@ func (w *world) zcheck(prefix, how string, cl *ztunnelclient.Client, ref, sameSe
 		if d.Type == ztunnelclient.AddressType {
 			cause = w.a.zannounced("ztunnel-w.istio-system", d.Name)
 			switch {
+			case cl.OnDemand && d.What == "missing" && cl.RemovedByEmptyResponse(d.Name):
+				// finding Z-F1: the answer to a request that resolves to nothing (e.g. a pure unsubscribe) lists everything the
+				// connection watches as removed. The client saw that removal itself, so this evidence goes before any shape.
+				cause = "removed-by-response-without-resources"
 			case w.zsquatted(d, held, ref):
 				cause = "hostname-served-by-serviceentry-and-kubernetes-in-one-namespace"
-			case cl.OnDemand && d.What == "missing" && cl.RemovedByEmptyResponse(d.Name):
-				// finding Z-F1: the answer to a request that resolves to nothing (e.g. a pure unsubscribe) lists everything the connection watches as removed
-				cause = "removed-by-response-without-resources"
-			case cl.OnDemand && d.What != "extra" && strings.Contains(d.Kind, "(subscribed=ip)"):
+			case cl.OnDemand && d.What != "extra" && strings.Contains(d.Kind, "(subscribed=ip"):
 				// finding Z-F3: a subscription by network/ip is only evaluated when it is requested; a workload or service that
 				// takes the address later is announced under its own name, which the connection is not subscribed to
 				cause = "subscribed-by-address:" + cause
 			}
 		}
-		key := fmt.Sprintf("%s:%s:%s:%s:%s:cause=%s:client=%s", prefix, class, ztunnelclient.Short(d.Type), d.Kind, d.What, cause, mode)
+		// the root cause comes before the volatile detail, so that a family can be named by prefix
+		key := fmt.Sprintf("%s:%s:cause=%s:client=%s:%s:%s:%s", prefix, class, cause, mode, ztunnelclient.Short(d.Type), d.Kind, d.What)
 		c.Violation(key,
 			fmt.Sprintf("%s ztunnel %s (%s): %s vs %s. %s. held: %s | reference: %s", prefix, cl.Name, mode, d, how, info, ztext(d.Type, held[d.Type][d.Name]), ztext(d.Type, ref[d.Type][d.Name])),
 			map[string]any{"client": cl.Name, "resource": d.String(), "history": histText(w.hist, w.applied), "context": info, "subscriptions": cl.Subscriptions(),
@@ -603,9 +655,16 @@ func zhistoryCase(c *vh.Ctx, st *stratum, i int, c01, c03 bool) {
 	r := c.Rng("zhist", i)
 	nops := 30 + r.Intn(c.N(30, 60))
 	kinit, hist, settled := genZHistory(r, nops)
-	w := newWorldK(c, time.Duration(1+r.Intn(5))*time.Millisecond, "z", kinit)
+	zrunHistory(c, fmt.Sprintf("zhist/%d", i), i < 2, time.Duration(1+r.Intn(5))*time.Millisecond, kinit, hist, settled, c01, c03)
+}
+
+// zrunHistory drives one history (generated or scripted) through a control plane with a wildcard and an on-demand ztunnel
+// and applies the C01 and/or C03 oracle after the batches.
+func zrunHistory(c *vh.Ctx, label string, sample bool, debounce time.Duration, kinit []kruntime.Object, hist [][]op, settled []bool, c01, c03 bool) {
+	w := newWorldK(c, debounce, "z", kinit)
 	defer w.close()
 	w.hist = hist
+	w.caseName = label
 	w.zconnect()
 	defer w.zclose()
 	propKey := strings.ToLower(c.Prop.ID)
@@ -662,15 +721,36 @@ func zhistoryCase(c *vh.Ctx, st *stratum, i int, c01, c03 bool) {
 			changedAny = true
 		}
 		prev = cur
-		info := fmt.Sprintf("after batch %d of zhist/%d", bi, i)
-		var same zstate
-		if c03 || (c01 && settled[bi]) {
-			var ok bool
-			same, ok = zfresh(w.a)
-			if !ok {
-				c.Inconclusive("fresh ztunnel on the same server did not quiesce")
-				return
+		info := fmt.Sprintf("after batch %d of %s", bi, label)
+		var same, fb zstate
+		takeRefs := func() bool {
+			if c03 || (c01 && settled[bi]) {
+				var ok bool
+				if same, ok = zfresh(w.a); !ok {
+					c.Inconclusive("fresh ztunnel on the same server did not quiesce")
+					return false
+				}
 			}
+			if c01 && settled[bi] {
+				var ok bool
+				if fb, ok = w.zfreshB(w.a); !ok {
+					c.Inconclusive("fresh control plane did not quiesce")
+					return false
+				}
+			}
+			return true
+		}
+		if !takeRefs() {
+			return
+		}
+		if !w.zpersist(propKey+":z", w.a, takeRefs, func() []zpair {
+			var ps []zpair
+			if c03 {
+				ps = append(ps, zpair{"same-server", w.z.wild, &same}, zpair{"same-server", w.z.od, &same})
+			}
+			return append(ps, zpair{"fresh-control-plane", w.z.wild, &fb}, zpair{"fresh-control-plane", w.z.od, &fb})
+		}) {
+			return
 		}
 		if c03 {
 			n := w.zcheck("c03:z", "same-server", w.z.wild, same, nil, info)
@@ -679,11 +759,6 @@ func zhistoryCase(c *vh.Ctx, st *stratum, i int, c01, c03 bool) {
 			c.Count("z_same_server_comparisons", 1)
 		}
 		if c01 && settled[bi] {
-			fb, ok := w.zfreshB(w.a)
-			if !ok {
-				c.Inconclusive("fresh control plane did not quiesce")
-				return
-			}
 			// instance nondeterminism: a second fresh control plane decides for resources that differ
 			diffsW := zcompare(w.z.wild.Snapshot(), fb)
 			diffsO := zcompareOnDemand(w.z.od, fb)
@@ -735,7 +810,7 @@ func zhistoryCase(c *vh.Ctx, st *stratum, i int, c01, c03 bool) {
 			c.Count("z_nontrivial", 1)
 		}
 	}
-	if i < 2 {
+	if sample {
 		c.Sample(map[string]any{"stratum": "z", "history": histText(hist, len(hist)), "clients": 2})
 	}
 }
@@ -831,6 +906,7 @@ func zreconnectCase(c *vh.Ctx, st *stratum, i int) {
 	debounce := time.Duration(1+r.Intn(4)) * time.Millisecond
 	w := newWorldK(c, debounce, "z", kinit)
 	w.hist = hist
+	w.caseName = fmt.Sprintf("zreconnect/%d", i)
 	cur := w.a
 	defer func() {
 		if cur != w.a {
@@ -1004,9 +1080,34 @@ func zreconnectCase(c *vh.Ctx, st *stratum, i int) {
 	saveA := w.a
 	w.a = cur // zcheck reads the push log of the server the clients are connected to
 	defer func() { w.a = saveA }()
-	same, ok := zfresh(cur)
-	if !ok {
-		c.Inconclusive("fresh ztunnel did not quiesce")
+	var same, fb zstate
+	takeRefs := func() bool {
+		var ok bool
+		if same, ok = zfresh(cur); !ok {
+			c.Inconclusive("fresh ztunnel did not quiesce")
+			return false
+		}
+		if fb, ok = w.zfreshB(cur); !ok {
+			c.Inconclusive("fresh control plane did not quiesce")
+			return false
+		}
+		return true
+	}
+	if !takeRefs() {
+		return
+	}
+	if !w.zpersist("c05:z", cur, takeRefs, func() []zpair {
+		ps := []zpair{{"same-server", w.z.wild, &same}, {"same-server", w.z.od, &same}, {"fresh-control-plane", w.z.wild, &fb}, {"fresh-control-plane", w.z.od, &fb}}
+		for _, s := range scens {
+			if s.cl == nil {
+				continue
+			}
+			if done, _, _ := s.cl.StreamErr(); !done {
+				ps = append(ps, zpair{"same-server", s.cl, &same})
+			}
+		}
+		return ps
+	}) {
 		return
 	}
 	nScen, ncmp := 0, 0
@@ -1047,11 +1148,6 @@ func zreconnectCase(c *vh.Ctx, st *stratum, i int) {
 	info := fmt.Sprintf("zreconnect/%d end of history, restartAt=%d (long-lived client)", i, restartAt)
 	ncmp += w.zcheck("c05:z", "same-server", w.z.wild, same, nil, info)
 	ncmp += w.zcheck("c05:z", "same-server", w.z.od, same, nil, info)
-	fb, okb := w.zfreshB(cur)
-	if !okb {
-		c.Inconclusive("fresh control plane did not quiesce")
-		return
-	}
 	ncmp += w.zcheck("c05:z", "fresh-control-plane", w.z.wild, fb, same, info)
 	ncmp += w.zcheck("c05:z", "fresh-control-plane", w.z.od, fb, same, info)
 	c.Count("resources_compared", ncmp)
